@@ -6,6 +6,8 @@ SPEC = {
         {"name": "lockstep", "pkg": O4, "kind": "rapid", "run": "^TestVerifC01Lockstep$",
          "quick": {"checks": 700, "shards": 8, "timeout": 300},
          "thorough": {"checks": 1500, "shards": 16, "timeout": 3000}},
+        {"name": "paranoid-corner", "pkg": O4, "kind": "plain", "run": "^TestVerifC01ParanoidCorner$",
+         "quick": {"shards": 8, "timeout": 300}, "thorough": {"shards": 8, "timeout": 600}},
         {"name": "free", "pkg": O4, "kind": "rapid", "run": "^TestVerifC01FreeRunning$",
          "common": {"shrinktime": "1s"},
          "quick": {"checks": 60, "shards": 4, "timeout": 300},
